@@ -290,9 +290,8 @@ theorem convert_base_result_digits (W B NB : Nat) (hB : 2 ≤ B) (hNB : 2 ≤ NB
     res.1.digits NB ≤ p + 1 :=
   convertBase_digits_le_all W B NB hB hNB m p hp r res h
 
-/-- the same-base branch (`with_base_and_precision::<B>(p)`): the model — the behaviour the property REQUIRES —
-    rounds to the target precision like every other branch (the code at fa3b7b8 returns the operand
-    unrounded: recorded finding); unchanged and `Exact` when the digits fit -/
+/-- the same-base branch (`with_base_and_precision::<B>(p)`, code as of fix 0c0f651): rounds to the target
+    precision like every other branch; unchanged and `Exact` when the digits fit -/
 theorem convert_base_same_base (W B : Nat) (m : Mode) (p : Nat) (r : FRepr) :
     convertBase W B B m p r = .ok (reprRound B m coarseNone p (FRepr.new B r.signif r.exp)) ∧
     ((FRepr.new B r.signif r.exp).digits B ≤ p →
